@@ -41,6 +41,21 @@ def parse_unused_text(out):
     return res
 
 
+def directed_unused_chain(root):
+    """an override chain in which EVERY link is unused (the same name in three conftests, none requesting its parent, nothing
+    else unused sorting between them) next to a used fixture: each link is an entry of its own in every report"""
+    ws = gen.WS(root)
+    one = lambda n: f"@pytest.fixture\ndef {n}():\n    return 1\n\n"
+    ws.files = {"conftest.py": "import pytest\n\n" + one("db") + one("used_fx"),
+                "sub/conftest.py": "import pytest\n\n" + one("db"),
+                "sub/deep/conftest.py": "import pytest\n\n" + one("db") + one("used_fx"),
+                "sub/deep/test_x.py": "def test_x(used_fx):\n    pass\n",
+                "sub/test_y.py": "def test_y(used_fx):\n    pass\n"}
+    ws.spec = {"directed": "override chain whose links are all unused", "depth": 3}
+    ws.features.add("directed_unused_chain")
+    return ws
+
+
 def run(ctx):
     quick = ctx.tier == "quick"
     n = 14 if quick else 600
@@ -53,7 +68,8 @@ def run(ctx):
             return
         for i in range(n):
             root = ctx.scratch(f"w{i}")
-            ws = gen.gen_workspace(root, ctx.rng, venv=(i % 4 == 0), allow_imports=(i % 2 == 0), depth=ctx.rng.randint(2, 4))
+            ws = directed_unused_chain(root) if i == 1 else \
+                gen.gen_workspace(root, ctx.rng, venv=(i % 4 == 0), allow_imports=(i % 2 == 0), depth=ctx.rng.randint(2, 4))
             materialize(ws)
             db = vh.new_db()
             vh.call(op="scan", db=db, root=root)
